@@ -166,6 +166,8 @@ async def run(ctx):
     for i in range(ctx.budget(500, 50_000)):
         n = rng.choice([1, 1, 2, 2, 3, 3, 4, 5, 6, 8])
         pool = gen_pool(rng, n)
+        if len({e["q"] for e in pool["entries"]}) < len(pool["entries"]):
+            ctx.count("pools_with_a_repeated_qualifier")
         # assignments: random, plus "everything unfulfilled" so that pools offering nothing occur
         for asg in ({k: rng.choice("FUK") for k in POOLS.rc}, {k: rng.choice("FU") for k in POOLS.rc}, {k: "U" for k in POOLS.rc}):
             offered = RV.ref_pool(pool["entries"], asg)
